@@ -7,7 +7,7 @@ mkdir -p soak_replays
 for sd in $(seq $first $last); do
   for p in $props; do
     VERIF_SEED=$sd VERIF_REPLAY_DIR=$PWD/soak_replays timeout 1800 /venv/bin/python -m simlat check $p --tier ${SOAK_TIER:-quick} --no-evidence 2>&1 \
-      | grep -E "^(VIOLATION|  class=|runs=|HARNESS-ERROR)" | sed "s/^/seed=$sd $p: /"
+      | grep -E "^(VIOLATION|  class=|runs=|HARNESS-ERROR|VOID-RUN)" | sed "s/^/seed=$sd $p: /"
   done
 done
 echo SOAK-DONE
